@@ -222,7 +222,10 @@ func (in *Interp) spawn(fr *frame, pos token.Pos, fn value, args []value) {
 		s.cur = next
 		next.resume <- struct{}{}
 	}()
-	in.yield(fr)
+	// No scheduling point here: for data-race-free code it suffices to switch
+	// threads immediately before acquire-type operations (lock, atomic, channel
+	// operations) and when a thread blocks or ends; the new thread becomes
+	// runnable and is considered at the parent's next such point.
 }
 
 // finishThreads runs remaining runnable threads to quiescence after the
